@@ -243,13 +243,13 @@ theorem forwardSend_only (env : Env) (b : Bundle) (r : List Peer × Bool × Desc
     KStep r.2.2.1.key r.2.2.2 (forwardSend env b r).1 := by
   unfold forwardSend
   simp only
-  have hs := (sendAll_rt env r.2.2.1 (r.2.2.1.bndl.getD b) r.1 r.2.2.2).kstep
+  have hs := (sendAll_rt env r.2.2.1 b r.1 r.2.2.2).kstep
   split
   · exact hs.trans (sync_kstep { r.2.2.1 with cons := r.2.2.1.cons.purge } _ hb)
   · exact hs.trans (bundleContraindicated_only r.2.2.1 _ hb)
 
 theorem forwardSend_outs (env : Env) (b : Bundle) (r : List Peer × Bool × Desc × Node) :
-    ∀ o ∈ (forwardSend env b r).2, ∃ p ok, p ∈ r.1 ∧ o = Output.sent p (r.2.2.1.bndl.getD b) ok := by
+    ∀ o ∈ (forwardSend env b r).2, ∃ p ok, p ∈ r.1 ∧ o = Output.sent p b ok := by
   intro o ho
   unfold forwardSend at ho
   simp only at ho
@@ -258,7 +258,7 @@ theorem forwardSend_outs (env : Env) (b : Bundle) (r : List Peer × Bool × Desc
   · exact sendAll_outs env _ _ _ _ o ho
 
 theorem forwardSend_all (env : Env) (b : Bundle) (r : List Peer × Bool × Desc × Node) :
-    ∀ p ∈ r.1, ∃ ok, Output.sent p (r.2.2.1.bndl.getD b) ok ∈ (forwardSend env b r).2 := by
+    ∀ p ∈ r.1, ∃ ok, Output.sent p b ok ∈ (forwardSend env b r).2 := by
   intro p hp
   unfold forwardSend
   simp only
@@ -270,20 +270,20 @@ theorem forwardSend_all (env : Env) (b : Bundle) (r : List Peer × Bool × Desc 
 theorem forwardSend_kept (env : Env) (b : Bundle) (r : List Peer × Bool × Desc × Node) (it : Item)
     (hg : r.2.2.2.store.get r.2.2.1.key = some it)
     (hfp : r.2.2.1.cons.fp = true) (hrp : r.2.2.1.cons.rp = false) (hle : r.2.2.1.cons.le = false) :
-    OkSent (forwardSend env b r).2 (r.2.2.1.bndl.getD b) ∨
+    OkSent (forwardSend env b r).2 b ∨
     Kept it ((forwardSend env b r).1.store.get r.2.2.1.key) := by
   unfold forwardSend
   simp only
-  have hs := sendAll_rt env r.2.2.1 (r.2.2.1.bndl.getD b) r.1 r.2.2.2
+  have hs := sendAll_rt env r.2.2.1 b r.1 r.2.2.2
   rcases hs.item it hg with ⟨it2, g2, b2, e2, _, _, _⟩
-  by_cases hok : (sendAll env r.2.2.1 (r.2.2.1.bndl.getD b) r.1 r.2.2.2).2.2 = true
+  by_cases hok : (sendAll env r.2.2.1 b r.1 r.2.2.2).2.2 = true
   · left
     rcases sendAll_sent env _ _ _ _ hok with ⟨p, hp⟩
     refine ⟨p, _, ?_, rfl, rfl⟩
     split <;> exact hp
   · right
-    have hok' : (sendAll env r.2.2.1 (r.2.2.1.bndl.getD b) r.1 r.2.2.2).2.2 = false := by
-      cases h : (sendAll env r.2.2.1 (r.2.2.1.bndl.getD b) r.1 r.2.2.2).2.2 <;> simp_all
+    have hok' : (sendAll env r.2.2.1 b r.1 r.2.2.2).2.2 = false := by
+      cases h : (sendAll env r.2.2.1 b r.1 r.2.2.2).2.2 <;> simp_all
     simp only [hok', Bool.false_and, Bool.false_eq_true, if_false]
     have hne : ({ r.2.2.1.cons with ci := true } : Cons).isEmpty = false := by simp [Cons.isEmpty]
     have := sync_update { r.2.2.1 with cons := { r.2.2.1.cons with ci := true } } _ it2 g2 hne
@@ -336,8 +336,7 @@ theorem forward_outs (env : Env) (d : Desc) (b : Bundle) (n : Node) (hd : d.bndl
     · split at ho
       · simp at ho
       · rcases forwardSend_outs env b _ o ho with ⟨p, ok, hp, rfl⟩
-        have hd1 : ({ d with cons := { d.cons with fp := true, dp := false } } : Desc).bndl = some b := hd
-        refine ⟨p, _, ok, rfl, ?_, (selectSenders_tag env _ b _ hd1).1⟩
+        refine ⟨p, _, ok, rfl, ?_, rfl⟩
         have := selectSenders_sub env _ b _ p hp
         rw [(sync_env _ n).peers] at this
         exact this
@@ -363,16 +362,13 @@ theorem forward_kept (env : Env) (d : Desc) (b : Bundle) (n : Node) (it : Item)
     (sync { d with cons := { d.cons with fp := true, dp := false } } n)
   have hdesc := selectSenders_desc env { d with cons := { d.cons with fp := true, dp := false } } b
     (sync { d with cons := { d.cons with fp := true, dp := false } } n)
-  have htag := selectSenders_tag env { d with cons := { d.cons with fp := true, dp := false } } b
-    (sync { d with cons := { d.cons with fp := true, dp := false } } n) hd
   rcases hsel.item _ h1 with ⟨it2, g2, b2, e2, _, _, _⟩
   have := forwardSend_kept env b (selectSenders env { d with cons := { d.cons with fp := true, dp := false } } b
     (sync { d with cons := { d.cons with fp := true, dp := false } } n)) it2
     (by rw [hdesc.1]; exact g2) (by rw [hdesc.2.1]) (by rw [hdesc.2.1]; exact hrp) (by rw [hdesc.2.1]; exact hle)
   rw [hdesc.1] at this
   rcases this with h | h
-  · rcases h with ⟨p, b', hm, ht, hk⟩
-    exact Or.inl ⟨p, b', hm, ht.trans htag.1, hk.trans htag.2.1⟩
+  · exact Or.inl h
   · exact Or.inr (h.of_eq b2 e2)
 
 
